@@ -285,6 +285,7 @@ func runC02(r *Run) {
 			return
 		}
 		t := texts[i]
+		r.Note(i, t)
 		r.evals.Add(1)
 		if f := c02Oracle(t, true); f != nil {
 			r.Fail(Case{Rule: "generated", Extra: map[string]string{"input": t}}, f)
